@@ -140,6 +140,13 @@ class CliRules:
             st.sym[nm] = (-(1 << 31), (1 << 31) - 1)
             return [(st, sym(nm))]
 
+        def m_keydecode(I, st, fr, n, this, args, an):
+            # decoder(text, length, out): remember for the destination object which text it was decoded from
+            if len(args) >= 3 and args[2][0] == 'p':
+                src = args[0]
+                st.comps[('keysrc', args[2][1])] = ('optarg' if src[0] == 'p' and src[1] == OPTARG else show(src), nloc(n))
+            return [(st, C(1))]
+
         ERRNO = ('ext', 'errno')
         R_ = self
 
@@ -150,6 +157,13 @@ class CliRules:
         def m_rand(I, st, fr, n, this, args, an):
             R_.rand_calls = getattr(R_, 'rand_calls', [])
             R_.rand_calls.append((nloc(n), bool(st.comps.get('seeded')), I.frames[-1].fn['q'] if I.frames else '?'))
+            # the first value a call site delivers on a path has a name (arithmetic on it leaves a trace); later ones are anonymous
+            k_ = ('randn', n.get('_id'))
+            if not st.comps.get(k_):
+                st.comps[k_] = 1
+                nm_ = '$rand%s' % n.get('_id')
+                st.sym[nm_] = (0, (1 << 31) - 1)
+                return [(st, sym(nm_))]
             return [(st, R(0, (1 << 31) - 1))]
 
         def m_errno_loc(I, st, fr, n, this, args, an):
@@ -399,7 +413,7 @@ class CliRules:
 
         mdl.update({'scanf': m_scanf_str, 'std::basic_string::substr': m_str_sub, 'std::basic_string::find_last_of': m_file_size,
                     'std::basic_string::find': m_file_size, 'std::basic_string::rfind': m_file_size})
-        mdl.update({'getopt_long': m_getopt, 'strlog': m_strlog, 'is_valid_b64': m_valid, 'base64_to_hex': m_noop_true,
+        mdl.update({'getopt_long': m_getopt, 'strlog': m_strlog, 'is_valid_b64': m_valid, 'base64_to_hex': m_keydecode,
                     'hex_to_base64': m_noop_true, 'atoi': m_atoi, 'std::stoi': m_atoi, 'std::stol': m_atoi, 'std::stoul': m_atoi, '__errno_location': m_errno_loc, 'rand': m_rand, 'srand': m_srand, 'strtol': m_strtol, 'strtoul': m_strtol, 'std::vector::size': m_vecsize,
                     'std::basic_string::basic_string': m_str_ctor, 'std::operator+': m_str_plus,
                     'std::basic_string::operator=': m_str_assign, 'std::basic_string::operator+=': m_str_append, 'std::basic_string::append': m_str_append,
@@ -475,17 +489,41 @@ class CliRules:
                     '%s is read before anything was stored in it since it was allocated' % fld))
         rec.ob('R15.f', 'R15.f@%s::pack-fields-written-before-read' % fkey(f), not ur, where,
                'every scalar read in the parser sees a value stored since the allocation: %s' % ('yes' if not ur else 'NO'))
+        # ---- R17.t constant tables subscripted with a value computed from the command line / the input's size
+        seen_t = set()
+        for name, idx, r, size, loc_ in list(I.oob_may) + [(None, C(i_), (i_, i_), n_, None) for i_, n_ in I.oob]:
+            if (name, loc_) in seen_t:
+                continue
+            seen_t.add((name, loc_))
+            rec.ob('R17.t', 'R17.t@%s::table-subscript-in-range::%s' % (fkey(f), name), False, loc_ or where,
+                   'constant table %s (%d entries) is subscripted with %s in [%d, %d] on a path of the parse' % (name, size, show(idx), r[0], r[1]))
+        rec.ob('R17.t', 'R17.t@%s::table-subscripts-in-range' % fkey(f), not seen_t, where,
+               'every subscript of a constant table on the analysed paths of the parse stays inside the table: %s' % ('yes' if not seen_t else 'NO'))
+        # ---- R17.v floating values converted to an integer type lie inside that type ([conv.fpint]: undefined otherwise)
+        for wh_, fn_, lo_, hi_, bits_, sg_ in I.float_conv:
+            rec.ob('R17.v', 'R17.v@%s::float-to-integer-in-range' % fn_, False, wh_,
+                   'a floating value in [%s, %s] is converted to a %d-bit %s integer: undefined for the part outside the type (the result then indexes / sizes whatever follows)' % (
+                       lo_, hi_, bits_, 'signed' if sg_ else 'unsigned'))
+        rec.ob('R17.v', 'R17.v@%s::float-conversions-in-range' % fkey(f), not I.float_conv, where,
+               'every conversion of a floating value with a decided range to an integer type on the analysed paths of the parse fits the type: %s' % (
+                   'yes' if not I.float_conv else 'NO'))
         # ---- R18.s the seed buffer and the random key are drawn from a generator that this parse has seeded: an unseeded rand()
         #      gives every process the same 256 seed bytes, hence the same IVs for every file
         rc = getattr(self, 'rand_calls', [])
         unseeded = sorted({(w, fn) for w, sd, fn in rc if not sd})
         for w, fn in unseeded:
             rec.ob('R18.s', 'R18.s@%s::rand-after-srand' % fn, False, w, 'rand() is reached on a path of the parse on which srand() has not been called: the values are the same in every process')
+        ovf = [t_ for t_ in I.truncs if t_['syms'] and all(x.startswith('$rand') for x in t_['syms'])]
+        for t_ in ovf:
+            rec.ob('R18.s', 'R18.s@%s::arithmetic-on-rand-stays-in-range' % t_['fn'], False, t_['where'],
+                   '%s with rand() in [0, RAND_MAX] has the range [%d, %d]: it does not fit the %d-bit %s type it is computed in, so most generator values give a meaningless byte' % (
+                       t_['expr'], t_['range'][0], t_['range'][1], t_['bits'], 'signed' if t_['signed'] else 'unsigned'))
         rec.ob('R18.s', 'R18.s@%s::generator-seeded' % fkey(f), not unseeded, where,
                'every rand() call of the parse (%d evaluation(s)) comes after srand() on its path' % len(rc))
         # ---- R17.a required fields per mode at every successful return
         need = {ord('e'): ('out', 'key'), ord('d'): ('out', 'key'), ord('v'): ('key',), ord('E'): ('out', 'key'), ord('D'): ('out', 'key')}
         nret = 0
+        nkey = [0, 0]
         for s, v in res:
             if v[0] == 'null':
                 ok = s.comps.get('diag') is True
@@ -510,7 +548,20 @@ class CliRules:
                     rec.ob('R17.a', 'R17.a@%s::mode-%s-needs-%s' % (fkey(f), chr(m), fld), nonnull, where,
                            'successful return with mode %r and %s %s' % (chr(m), fld, 'set' if nonnull else 'possibly NULL (%s): dereferenced later' % show(pv)),
                            path=[str(x) for x in s.trace[-8:]])
+            # R06.k: key bytes that were decoded from text were decoded from the argument of the key option
+            kv = I.load(s, (obj, base + (self.fields['key'],)))
+            if kv[0] == 'p':
+                src_ = s.comps.get(('keysrc', kv[1]))
+                nkey[0] += 1
+                if src_ is not None:
+                    nkey[1] += 1
+                    rec.ob('R06.k', 'R06.k@%s::key-decoded-from-the-key-option' % fkey(f), src_[0] == 'optarg', src_[1],
+                           'successful return: the key handed to the kernel was decoded from %s' % (
+                               'the argument of the key option' if src_[0] == 'optarg' else '%s, NOT from the argument of the key option' % src_[0]),
+                           path=[str(x) for x in s.trace[-8:]])
         rec.count('R17.a successful parser returns', nret, 3)
+        rec.ob('R06.k', 'R06.k@%s::key-sources' % fkey(f), nkey[1] >= 1, where,
+               '%d successful returns carry a key, %d of them a key decoded from text' % (nkey[0], nkey[1]))
         # ---- R17.g mode numbers that pass the parser are ones the kernel factories know (at the stores of validated numbers)
         ksets = self.kernel_sets()
         ng = 0
@@ -642,6 +693,19 @@ class CliRules:
                     if p_ is not None and p_[0] == 'sstr':
                         nm = ('cstr', p_[1])
                 opens.append((node, mode, nm, dict((k[1], v) for k, v in st.comps.items() if isinstance(k, tuple) and k and k[0] == 'maxlen')))
+        # R18.w: the seed the user types goes into the byte array of the pack; a field width on that read that is smaller than
+        # the array leaves the rest of the typed seed unread, so seeds that differ only beyond it give the same IVs
+        seed_fields = {x['d'][2:]: prog.type(x['t']) for r in prog.records.values() for x in r['fields']
+                       if x['d'][2:] in self.fields.values() and (prog.type(x['t']) or {}).get('k') == 'array'
+                       and (prog.type((prog.type(x['t']) or {}).get('el')) or {}).get('bits') == 8}
+        seed_reads = []
+
+        def on_strwrite(self_, I, st, node, dst, args, argnodes, bounded):
+            if dst is not None and dst[0] == 'p':
+                fld = next((q for q in dst[2] if isinstance(q, str) and q in seed_fields), None)
+                if fld is not None and node.get('callee', {}).get('q') == 'scanf':
+                    seed_reads.append((nloc(node), fld, bounded))
+        Lst.on_strwrite = on_strwrite
         I = interp.Interp(prog, listeners=[Lst()], models=mdl)
         st = interp.State()
         st.comps['diag'] = False
@@ -686,6 +750,16 @@ class CliRules:
             rec.ob('R12.g', 'R12.g@%s::default-output-names' % fkey(f), ok, nloc(node),
                    'file opened "%s" under a name made by the program: %s' % (mode, det))
         rec.count('R12.g program-made output names in the dialogue', n, 2)
+        for wh_, fld, bounded in sorted(set(seed_reads), key=str):
+            cap_ = seed_fields[fld].get('n') or 0
+            ok = bounded is None or (bounded[0] == 'c' and bounded[1] >= cap_)
+            rec.ob('R18.w', 'R18.w@%s::typed-seed-read-whole' % fkey(f), ok, wh_,
+                   'the seed typed in the dialogue is read into %s (%d bytes) %s' % (
+                       fld, cap_, 'without a field width' if bounded is None else 'with a field width of %s characters%s' % (
+                           bounded[1] - 1 if bounded[0] == 'c' else show(bounded), '' if ok else ': what is typed beyond that never reaches the IV derivation')))
+        rec.ob('R18.w', 'R18.w@%s::typed-seed-reads' % fkey(f), bool(seed_reads) and all(
+            b is None or (b[0] == 'c' and b[1] >= (seed_fields[fl].get('n') or 0)) for _, fl, b in seed_reads), where,
+               '%d read(s) of a typed seed into the pack\'s byte array found in the dialogue' % len(set(seed_reads)))
 
     # ------------------------------------------------------------------ exit status mapping
     def exit_mapping(self):
